@@ -42,6 +42,23 @@ pub fn scripts(thorough: bool, maxw: u32) -> Vec<(&'static str, Vec<StreamSpec>)
             ],
         ),
     ];
+    // penguin's real data path: the stream is bridged to a local byte stream on both ends
+    v.push((
+        "1 stream, both ends bridged to local pipes (CopyBidirectional on both sides)",
+        vec![StreamSpec {
+            tag: 1,
+            opener: 0,
+            opener_plan: EndPlan::Bridged(4, vec![Op::W(3), Op::W(2), Op::Shutdown, Op::ReadToEof(2)]),
+            acceptor_plan: EndPlan::Bridged(2, vec![Op::ReadN(2, 1), Op::W(3), Op::ReadToEof(8), Op::W(1), Op::Shutdown]),
+        }],
+    ));
+    v.push((
+        "2 streams, one end bridged each, bursts",
+        vec![
+            StreamSpec { tag: 1, opener: 0, opener_plan: EndPlan::Bridged(3, vec![Op::Burst(burst, 1), Op::Shutdown, Op::ReadToEof(4)]), acceptor_plan: split(vec![Op::W(2)], 1) },
+            StreamSpec { tag: 2, opener: 0, opener_plan: split(vec![Op::W(1), Op::W(2)], 64), acceptor_plan: EndPlan::Bridged(8, vec![Op::ReadToEof(2), Op::Burst(3, 2), Op::Shutdown]) },
+        ],
+    ));
     if thorough {
         v.push((
             "3 streams, one opened by the server at the same time",
